@@ -76,7 +76,7 @@ def r1_alias_mutation(ctx, rep):
     rep.stats["aliases"] = n_alias
 
 
-def r2_innermost_wins(ctx, rep):
+def r2_innermost_wins(ctx, rep, only_use: bool = False):
     py = ctx.py
     fn = py.func("FortranCodeUnit.correlate")
     events: Dict[str, List[Tuple[int, str, str]]] = {t: [] for t in TABLES}
@@ -147,6 +147,8 @@ def r2_innermost_wins(ctx, rep):
                    f"write order {order}: `{later[0][2]}` puts the host's names back over what a USE statement of this scope "
                    f"imported: an inner-scope `use m, only: x` no longer hides the host's `x`",
                    f"ford/sourceform.py:{int(later[0][0]) if later else int(ev[0][0])}")
+        if only_use:
+            continue
         for kind, word in (("HOST", "host"), ("ANCESTOR", "ancestor-module")):
             later = [(ln, k, d) for ln, k, d in ev if ln > last_local and k == kind]
             rep.ob(f"table {t}: no {word} write after the local one", not later,
@@ -316,6 +318,32 @@ def r7_use_is_complete_when_read(ctx, rep):
     c06.r3_dependency_order(ctx, rep)
 
 
+
+def r8_tables_not_shrunk(ctx, rep):
+    """the scope tables are only ever extended: removing a name that the unit declares (e.g. a dummy procedure matched to
+    its interface block) lets the host's entity of the same name show through"""
+    py = ctx.py
+    n = 0
+    for cname, ci in py.classes.items():
+        if ci.module != "sourceform":
+            continue
+        for mname, m in ci.methods.items():
+            for x in ast.walk(m):
+                hit = None
+                if isinstance(x, ast.Call) and isinstance(x.func, ast.Attribute) and x.func.attr in ("pop", "popitem", "clear") and \
+                        isinstance(x.func.value, ast.Attribute) and x.func.value.attr in TABLES and ast.unparse(x.func.value.value) == "self":
+                    hit = x
+                if isinstance(x, ast.Delete) and any(isinstance(t, ast.Subscript) and isinstance(t.value, ast.Attribute)
+                                                     and t.value.attr in TABLES and ast.unparse(t.value.value) == "self" for t in x.targets):
+                    hit = x
+                if hit is not None:
+                    n += 1
+                    rep.ob(f"{cname}.{mname}: `{ast.unparse(hit)[:50]}`", False,
+                           f"`{ast.unparse(hit)[:70]}` removes a name from the unit's own scope table: the entity declared here no longer "
+                           f"shadows a host entity of the same name", py.nloc(hit))
+    rep.ob("scope tables are never shrunk", n == 0, "no pop/del/clear on self.all_* in the entity classes" if n == 0 else f"{n} site(s)",
+           "ford/sourceform.py", nontrivial=False)
+
 RULES = [
     RuleSpec("C07.R6", r6_block_scope, "block-local declarations stay out of the enclosing scope", floor=4),
     RuleSpec("C07.R7", r7_use_is_complete_when_read, "importers are correlated after their exporters (shared with C06.R3)", floor=5),
@@ -324,4 +352,5 @@ RULES = [
     RuleSpec("C07.R3", r3_lower_keys, "case-insensitive keys", floor=16),
     RuleSpec("C07.R4", r4_no_project_fallback, "no project-wide fallback in correlate", floor=8),
     RuleSpec("C07.R5", r5_type_extension_order, "type extension order", floor=3),
+    RuleSpec("C07.R8", r8_tables_not_shrunk, "scope tables are only extended", floor=1),
 ]
